@@ -905,9 +905,9 @@ impl BuildCheck {
     pub fn new(prop: &'static str, thorough: bool, cap: Option<u64>) -> Self {
         BuildCheck {
             prop,
-            max_n: if thorough { 40 } else { 14 },
+            max_n: if thorough { 40 } else { 32 },
             cap,
-            tape_lens: if thorough { [900, 60] } else { [300, 40] },
+            tape_lens: if thorough { [900, 60] } else { [700, 60] },
         }
     }
     pub fn decode(&self, tapes: &[Vec<u16>]) -> BuildCase {
